@@ -16,7 +16,7 @@ PROPS = {
         "rule": "seed files written by the engine's own writers for 13 extensions (3 documents, with/without SAUCE, 0/1/255 comments, compression on/off) plus hand-built streams, fonts (PSF1, PSF2, raw), TheDraw fonts and bundles, 5 palette formats, "
                 "bare SAUCE records, clipboard data and IcyDraw files kept as chunk lists; per seed every truncation point, a value menu at every header/tail byte, every 16/32-bit field (LE and BE) of the first 48 bytes set to extremes singly and in pairs, "
                 "IcyDraw chunk payload truncations / byte and field faults / reorderings / renames with the PNG container kept valid; every prefix <= 64 bytes of every seed under 24 extensions; all byte strings of length <= 2 under every extension and extractor; "
-                "a deviation-bounded product of SAUCE tails; control-token streams (depth <= 2) as files of the 8 text formats; odd file names; PSF2 headers whose (headersize, length, charsize) solve the loader's length equation under signed / unsigned / wrapping readings of 14 extreme operand values (cooperating fields). non-trivial = the loader accepted the input",
+                "a deviation-bounded product of SAUCE tails; control-token streams (depth <= 2) as files of the 8 text formats; odd file names; PSF2 headers whose (headersize, length, charsize) solve the loader's length equation under signed / unsigned / wrapping readings of 14 extreme operand values (cooperating fields); ANSI files with three / four sixel images of which a later one covers two earlier ones. non-trivial = the loader accepted the input",
         "level_text": "every fault of the stated menus is applied to every seed and loaded by the real loaders and extractors under catch_unwind in killable worker processes",
         "level_note": "faults are single and pairwise (not arbitrary multi-byte corruption); cases cut by the CPU/memory budget are counted, the header-extreme strata are judged under C03's budget by the C03 check",
         "technique": "exhaustive fault enumeration (truncation points, corruption menus, field extremes) over a seed corpus on the implementation",
@@ -26,7 +26,7 @@ PROPS = {
     "C03": {
         "bin": "px_cost", "parts": [{"bin": "px_cost"}, {"bin": "px_load"}], "budget_ms": 3000, "mem_cap_mb": 1024, "judge_budget": True, "wall_cap": {"quick": 600, "thorough": 2400},
         "rule": "complete control-function table: CSI final 0x40..0x7E x 8 intermediates x parameter tuples of length 0..6 over {1,0,H,W,2^16,10^6,2^31-1} with <=2 (thorough <=3, full for <=4 parameters) "
-                "positions different from 1, in 5 start contexts (fresh, scrollback, top/bottom margins, all margins, and the non-terminal buffer the file loaders use) on 80x25 and 132x60, plus explicit shape lists (DCS macro repeat / recursion shapes, sixel raster/repeat/colour headers, Avatar repeat and goto byte pairs, "
+                "positions different from 1, in 5 start contexts (fresh, scrollback, top/bottom margins, all margins, and the non-terminal buffer the file loaders use) on 80x25 and 132x60, a second family 'state-setting command then work probe' (every row with <=1 parameter away from its default, resize / margin pairs of extremes, followed by 9 probes whose cost is bounded by the state left behind) in the terminal and the file-loader context; plus explicit shape lists (DCS macro repeat / recursion shapes, macros under huge ids followed by the macro-space reports, sixel raster/repeat/colour headers, Avatar repeat and goto byte pairs, "
                 "PSF1/PSF2/raw font payload headers, music/OSC/SGR numbers); per case CPU, peak heap and allocation-scaling are measured in the worker; non-trivial = the input made the engine allocate",
         "level_text": "every row of the control-function table (deviation-bounded) and every listed header shape is executed on the real parsers under a counting allocator and a CPU clock; nothing is sampled",
         "level_note": "limits: 0.5 s CPU and 64 MiB peak live heap per input (legitimate work measured at <1 ms / <3 MiB); the file-header part of the property is covered by the C02 fault engine's header-extreme stratum under the same limits",
@@ -65,7 +65,7 @@ PROPS = {
     "C06": {
         "bin": "px_binfmt", "budget_ms": 30000, "wall_cap": {"quick": 600, "thorough": 2400},
         "rule": "all rows of width 1..=5 (thorough 6) over 3 chars x 3 attributes x 2 font pages, all rows of width 6..=7 (thorough 9) over a 2x2x2 alphabet, rows of width 60..=70 and 124..=135 that are concatenations of <=3 runs of 4 kinds at every "
-                "listed split point (both sides of the 64-cell limit), identical adjacent rows; each row saved compressed and uncompressed by the real writer, both loaded by the real loader, the compressed stream decoded by a decoder written from x_bin.htm",
+                "listed split point (both sides of the 64-cell limit), identical adjacent rows; each row saved compressed and uncompressed by the real writer, both loaded by the real loader, the compressed stream decoded by a decoder written from x_bin.htm; second generation (the loaded picture saved compressed again through the spec decoder); 24 documents built in several steps (second opaque / alpha / hidden layer, moved base layer)",
         "level_text": "every row of the stated alphabets and widths is encoded by the real compressor; both encodings are decoded by the real loader and the compressed stream by an independent spec decoder",
         "level_note": "rows are batched 190 per buffer plus a sentinel row that keeps both font pages in use; the statement's random buffers are replaced by the structured long-row family",
         "technique": "exhaustive enumeration of all inputs up to a size bound against an independent reference decoder and a differential (compressed vs uncompressed) oracle",
@@ -86,7 +86,7 @@ PROPS = {
         "rule": "same explorer as C01 minus text-area resize tokens, plus every token pair repeated until 3*H line changes happened (deterministic replacement of the random scrollback-filling streams); "
                 "invariant monitor after every character; non-trivial = the run produced at least one error value; states = distinct observable end states",
         "level_text": "invariant (cursor inside the visible window; fixed 40x24 grid for Viewdata/Mode 7) evaluated after every character of every explored sequence on the real parsers",
-        "level_note": "depth <=3 tokens beyond a context; monitoring stops after a ResizeTerminal action; W,H are read from TerminalState, first visible line from Buffer",
+        "level_note": "depth <=3 tokens beyond a context; monitoring stops after a ResizeTerminal action; W,H are read from TerminalState and must stay what the emulation was started with, first visible line from Buffer",
         "technique": "bounded exhaustive exploration of operation sequences with an invariant monitor on every transition",
         "assumptions": ["a case cut by the per-case CPU/memory budget is counted as cut (C03's subject), not judged"],
     },
@@ -94,7 +94,7 @@ PROPS = {
         "bin": "px_icy", "budget_ms": 30000, "mem_cap_mb": 2048, "wall_cap": {"quick": 600, "thorough": 2400},
         "rule": "documents: a two-layer base document varied in every single dimension, every pair of dimensions and every triple of dimensions (quick: the triples with <=100 combinations; thorough: all 255 000 triples) over 18 dimensions - layer count 1..=6, layer size "
                 "{0x0,1x1,2x2,3x1,200x2,1x120,0x2,2x0,200x120}, offsets {-50,-1,0,2,50}, all 32 flag combinations of a normal and of the base layer, 3 modes, colour tag, transparency {0,1,255}, default font page {0,255,300}, "
-                "titles (empty, Unicode incl. astral, 300 chars, embedded NUL), 5 buffer types, 3 ice modes, 4 palette modes, 4 font modes, palettes of 16/1/17/300 colours, font slots {0}/{0,1}/{0,255,300}, SAUCE none/plain/with comments, "
+                "titles (empty, Unicode incl. astral, 300 chars, embedded NUL), 5 buffer types, 3 ice modes, 4 palette modes, 4 font modes, palettes of 16/1/17/300 colours, font slots {0}/{0,1}/{0,255,300}/{0: default font edited in place}, a palette with equal neighbouring entries, SAUCE none/plain/with comments, "
                 "buffer sizes up to 200x120; cells: every row of length 0..=4 over 7 cell kinds (short, long char, long colour, long font page, invisible, transparent fg, transparent bg) in layers of width len, len+1, len+3 (row terminator placement); "
                 "non-trivial = every document (all contain visible cells)",
         "level_text": "every document of the stated small scope is saved by the real Buffer::to_bytes(\"icy\", lossless) and loaded by the real Buffer::from_bytes and compared field by field",
@@ -105,7 +105,7 @@ PROPS = {
     "C10": {
         "bin": "px_unicode", "parts": [{"bin": "px_unicode"}, {"bin": "px_icy"}], "budget_ms": 20000, "wall_cap": {"quick": 600, "thorough": 2400},
         "rule": "complete value domains: fill-rectangle character parameter (quick: all values < 2^22 plus every 2^k, 2^k+-1, surrogate / 0x10FFFF boundaries and the saturation values; thorough: all 2^31 reachable values), "
-                "all 65536 16-bit clipboard character values, PSF2/PSF1/raw glyph tables up to 2^17 glyphs, all 256^2 hex macro byte pairs (macro invoked), IcyDraw long-form cell character fields (surrogate bounds, every 2^k and 2^k+-1 for k=8..31, values beyond U+10FFFF; in a first and in a continuation chunk) and every 1-byte and ~4400 2-byte strings as layer title and font name in hand-built IcyDraw chunk streams; "
+                "all 65536 16-bit clipboard character values, PSF2/PSF1/raw glyph tables up to 2^17 glyphs, all 256^2 hex macro byte pairs (macro invoked), IcyDraw long-form cell character fields (surrogate bounds, every 2^k and 2^k+-1 for k=8..31, values beyond U+10FFFF; in a first and in a continuation chunk) and every 1-byte and ~4400 2-byte strings as layer title and font name in hand-built IcyDraw chunk streams behind headers of every buffer type; DECFRA values around the surrogate range / the font table end / U+10FFFF with a 2^17 glyph font loaded by DCS and selected; every Unicode scalar as first and as second character of a hex macro pair; "
                 "non-trivial = batch touches the surrogate range / hex digits / a glyph table",
         "level_text": "every value of each input-derived character conversion is pushed through the real code and the stored cells, glyph keys and strings are inspected",
         "level_note": "an invalid char is observed as its raw bits (debug assertions off); reading one is already UB, so a finding means 'materialised', silence means 'not materialised on any explored value'",
